@@ -13,6 +13,7 @@ UNITS = {
     "u06v_hexane_str": {"verus": "specs/u06v_hexane_str.vt.rs"},
     "u05v_sync_flags": {"verus": "specs/u05v_sync_flags.vt.rs"},
     "u14_loadopts": {"verus": "specs/u14_loadopts.vt.rs"},
+    "u15_colids": {"verus": "specs/u15_colids.vt.rs"},
 }
 CHUNK = "rust/automerge/src/storage/chunk.rs"
 EXID = "rust/automerge/src/exid.rs"
@@ -99,6 +100,10 @@ HARNESSES = {
     # ---- U02k parse combinators
     "u02k_length_prefixed_total": {"crate": "automerge", "file": "rust/automerge/src/storage/parse.rs", "fn": "length_prefixed", "mode": "bounded", "bound": "all inputs of <= 11 bytes, element parser take1", "timeout_s": 900},
     "u02k_apply_n_total": {"crate": "automerge", "file": "rust/automerge/src/storage/parse.rs", "fn": "apply_n", "mode": "bounded", "bound": "every count (all usize) over a 4-byte input, element parser take1 (unwind 8: the count is bounded by the input)", "timeout_s": 900},
+    "u15_try_load_total": {"crate": "automerge", "file": "rust/automerge/src/op_set2/op_set/op_iter.rs", "fn": "OpId::try_load, ObjId::try_load, ElemId::try_load", "mode": "complete",
+                           "bound": "all Option<u32 actor index> x Option<i64 counter> (loop-free)"},
+    "u15_raw_read_bytes": {"crate": "automerge", "file": "rust/automerge/src/columnar/encoding/raw.rs", "fn": "RawDecoder::read_bytes", "mode": "bounded",
+                           "bound": "8-byte buffer, every offset inside it, every length < 2^60 (the range of a value-metadata length)"},
     # ---- U12 range normalisation
     "u12_normalize_range": {"crate": "automerge", "file": "rust/automerge/src/iter/list_range.rs", "fn": "normalize_range", "mode": "complete", "bound": "all pairs of Bound<usize> and all indexes < usize::MAX (loop-free)"},
     "u01_roundtrip_3": {"crate": "automerge", "file": BLOOM, "fn": "to_bytes, parse", "mode": "bounded", "bound": "3 entries (4 bytes of bits)", "tier": "thorough"},
@@ -214,18 +219,19 @@ PROPERTIES.update({
     "C15": {
         "level": "proof",
         "verus": [("u02_parse", "*"), ("u01_bloom", ["parse", "get_probes", "contains_hash", "add_hash", "set_bit"]), ("u04_ids", ["exid_to_opid", "op_cursor_to_opid", "new"]),
-                  ("u04c_codecs", ["try_from", "parse_0"]), ("u06v_hexane_str", "*")],
-        "kani": ["u02k_length_prefixed_total", "u02k_apply_n_total", "u06_codec_reads_agree", "u01_parse_wf_quick", "u01_parse_wf_thorough", "u01_query_total", "u03_header_parse_q", "u03_header_parse_t", "u03_chunktype_codes",
+                  ("u04c_codecs", ["try_from", "parse_0"]), ("u06v_hexane_str", "*"), ("u15_colids", ["try_next", "try_load", "new", "root", "from"])],
+        "kani": ["u15_try_load_total", "u15_raw_read_bytes", "u02k_length_prefixed_total", "u02k_apply_n_total", "u06_codec_reads_agree", "u01_parse_wf_quick", "u01_parse_wf_thorough", "u01_query_total", "u03_header_parse_q", "u03_header_parse_t", "u03_chunktype_codes",
                  "u04_exid_try_from_total_q", "u04_exid_try_from_total_t", "u04_cursor_from_str_total_q",
                  "u05_flags_parse_bytes",
                  "u06_int_unpack_total", "u06_narrow_unpack_total", "u06_string_unpack_q", "u06_string_unpack_t", "u06_string_unpack_huge_len",
                  "u06_rle_segment_total_u64", "u06_rle_segment_total_i64", "u06_rle_segment_utf8"],
         "not_under_contract": ["Automerge::load / load_incremental / rescue", "Change::from_bytes and the change/document/bundle column decoders", "sync::Message::decode with changes, State::decode",
-                               "ActorId / ChangeHash hex parsing", "import / import_obj (str code; a panic there, D9, was repaired but is not decided by this check)",
+                               "ActorId / ChangeHash hex parsing", "the RLE/delta column decoders feeding ObjIdIter/KeyIter/OpIdListIter (arbitrary sources in the Verus unit)", "import / import_obj (str code; a panic there, D9, was repaired but is not decided by this check)",
                                "parse combinators map/tuple2/apply_n/length_prefixed/range_of (generic FnMut parsers)", "hexane Column::load, slabs, delta/bool/raw decoders"],
         "assumptions": ["input slices shorter than usize::MAX", "Bloom bit arrays < 2^28 bytes"],
         "explanation": "Panic-freedom and termination of the LEAF decoders only: Verus proves for inputs of any length that the parse.rs/leb128.rs functions, the Bloom query path and the id/cursor "
-                       "resolution never panic, overflow or index out of range; Kani proves totality of BloomFilter::parse, Header::parse, ExId/Cursor byte and string decoders, MessageFlags::parse_bytes, "
+                       "resolution never panic, overflow or index out of range; the id-column iterators of change chunks (ObjIdIter/KeyIter/OpIdListIter::try_next) and the id loaders OpId/ObjId/ElemId::try_load meet OpId::new's precondition for every value untrusted columns can decode to; "
+                       "Kani proves totality of BloomFilter::parse, Header::parse, ExId/Cursor byte and string decoders, MessageFlags::parse_bytes, "
                        "the hexane varint/value decoders and one RLE segment step within the stated input-length bounds.",
     },
     "C17": {
